@@ -280,6 +280,14 @@ class QGen:
             self.feat("length.%d" % (q.count("/") + 1))
             return q
         if r.random() < 0.04:
+            # the same command name in two namespaces: the one the active namespaces select runs and is recorded
+            q = "%s/%s/%s" % (self.query(0, max_len=2), r.choice(["ns-alt", "ns-alt-root", "ns-root-alt", "ns-alt/ident"]),
+                              r.choice(["add-2", "add", "only_alt", "add-1/add-3", "add-4/cat-x"]))
+            self.feat("namespace")
+            self.feat("namespace.shadowing")
+            self.feat("length.%d" % (q.count("/") + 1))
+            return q
+        if r.random() < 0.04:
             # a label given inside the pipeline, then a trailing file name of another kind: the trailing one decides
             q = "%s/filename-%s/%s/%s" % (self.query(0, max_len=2), r.choice(["w.txt", "v.json", "q.html", "u.b"]),
                                           r.choice(["ident", "cat-x", "ident/cat-y"]), r.choice(["y.json", "z.txt", "p.csv", "m.pickle", "n.b"]))
